@@ -226,6 +226,59 @@ macro_rules! bell_no_early_out {
 bell_no_early_out!(c11_bell_no_early_out_f64, f64, -280);
 bell_no_early_out!(c11_bell_no_early_out_f32, f32, -30);
 
+static mut AR_ACC: bool = false;
+static mut AR_CALLS: u32 = 0;
+static mut AR_FP: (u64, i32) = (0, 0);
+fn ar_error_is_accurate<F: Float>(_errors: u32, fp: &ExtendedFloat) -> bool {
+    unsafe {
+        AR_CALLS += 1;
+        AR_FP = (fp.mant, fp.exp);
+        AR_ACC
+    }
+}
+
+macro_rules! bell_accept {
+    ($name:ident, $t:ty, $fmt:expr) => {
+        /// What bellerophon does with its estimate, for ALL Numbers (mul arbitrary,
+        /// error_is_accurate a recorder with a symbolic verdict): the estimate handed over is
+        /// normalised with biased exponent >= -64; rejected => exactly that estimate, biased
+        /// invalid, un-rounded; accepted => +0.0 when it lies a full 64 bits below the smallest
+        /// subnormal (exponent -64: value < 2^-bias), otherwise its nearest-even rounding.
+        #[kani::proof]
+        #[kani::stub(mul, ghost_mul)]
+        #[kani::stub(error_is_accurate, ar_error_is_accurate)]
+        fn $name() {
+            let num = Number { exponent: kani::any(), mantissa: kani::any(), many_digits: kani::any() };
+            let acc: bool = kani::any();
+            unsafe {
+                AR_ACC = acc;
+            }
+            let fp = bellerophon::<$t>(&num);
+            unsafe {
+                if AR_CALLS == 1 {
+                    let est = AR_FP;
+                    assert!(est.0 >> 63 == 1 && est.1 >= -64, "C11 estimate normalised, at most 64 bits below the subnormals");
+                    if !acc {
+                        assert!(fp.mant == est.0 && fp.exp == est.1 - 32768, "C11 rejected estimate returned un-rounded, biased invalid");
+                    } else if est.1 == -64 {
+                        assert!(fp.mant == 0 && fp.exp == 0, "C07 a full 64 bits below the smallest subnormal: +0.0");
+                    } else {
+                        let bits = fp.mant | ((fp.exp as u64) << $fmt.ms);
+                        assert!(fp.exp >= 0 && spec_is_rne($fmt, est.0, est.1, bits), "C11 accepted estimate: packed result is its nearest-even rounding");
+                    }
+                } else {
+                    assert!(AR_CALLS == 0 && fp.exp >= 0 && fp.mant == 0, "C11 without consulting the estimate only +0.0 / +inf are returned");
+                }
+                kani::cover!(AR_CALLS == 1 && acc && AR_FP.1 == -64);
+                kani::cover!(AR_CALLS == 1 && acc && AR_FP.1 == -63);
+                kani::cover!(AR_CALLS == 1 && !acc);
+            }
+        }
+    };
+}
+bell_accept!(c11_bell_accept_f64, f64, F64);
+bell_accept!(c11_bell_accept_f32, f32, F32);
+
 /// normalize: shifts out exactly the leading zeros, adjusts the exponent, reports the shift.
 #[kani::proof]
 fn c11_bell_normalize() {
